@@ -5,7 +5,8 @@ Mirrors
   fdtdx/core/misc.py      : `validate_symmetric_axis_cells`
   fdtdx/fdtd/symmetry.py  : `reduce_resolved_slices` (plane index, reduced volume, per-object clip / drop /
                             unclipped extent), `make_symmetry_walls` (which axes get a wall, its slice, its name)
-as called from `place_objects` (fdtdx/fdtd/initialization.py, steps 4, 6, 7, 8).
+  fdtdx/core/grid.py      : `RectilinearGrid.reduce_symmetric` (per axis: `reduceEdges`, generic scalars)
+as called from `place_objects` (fdtdx/fdtd/initialization.py, steps 4, 5, 6, 7, 8).
 
 Everything is integer arithmetic on `(start, stop)` pairs; `n // 2` is only evaluated for `n ≥ 2`, where
 Python's floor division and Lean's `/` on `Int` agree.  Warnings (asymmetric straddle, dropped Bloch boundary)
@@ -77,9 +78,12 @@ def wallSlice (shape : List Int) (a : Nat) : List Sl :=
 
 def axisName (a : Nat) : String := match a with | 0 => "x" | 1 => "y" | _ => "z"
 
-/-- candidate `k` of the unique-name loop -/
+/-- `f"_sym_wall_{_AXIS_NAMES[a]}"` -/
+def wallBase (a : Nat) : String := "_sym_wall_" ++ axisName a
+
+/-- candidate `k` of the unique-name loop: the base name, then `base_1`, `base_2`, … (decimal counter) -/
 def wallCandidate (a : Nat) (k : Nat) : String :=
-  if k = 0 then s!"_sym_wall_{axisName a}" else s!"_sym_wall_{axisName a}_{k}"
+  wallBase a ++ (if k = 0 then "" else "_" ++ toString k)
 
 /-- first candidate not in use (the `while name in used` loop; at most `used.length` collisions) -/
 def wallName (used : List String) (a : Nat) : String :=
@@ -92,6 +96,41 @@ def wallNames (used : List String) (axes : List Nat) : List String :=
   match axes with
   | [] => []
   | a :: rest => let n := wallName used a; n :: wallNames (n :: used) rest
+
+/-! ### explicit non-uniform grids: `RectilinearGrid.reduce_symmetric` (fdtdx/core/grid.py)
+
+Generic scalars: `le` is the comparison (`fun a b => a <= b` on binary64, `decide (a ≤ b)` in the theorems). -/
+
+/-- `np.diff(edges)` -/
+def widths {α : Type} [Sub α] (e : List α) : List α := List.zipWith (fun a b => b - a) e (e.drop 1)
+
+def absv {α : Type} [Neg α] [OfNat α 0] (le : α → α → Bool) (x : α) : α := if le 0 x then x else -x
+
+/-- one entry of `jnp.allclose(a, b, rtol, atol=0)`: `|a - b| <= rtol * |b|` -/
+def closeTo {α : Type} [Sub α] [Mul α] [Neg α] [OfNat α 0] (le : α → α → Bool) (rtol a b : α) : Bool :=
+  le (absv le (a - b)) (rtol * absv le b)
+
+/-- `allclose(widths, widths[::-1], rtol=1e-4, atol=0.0)` -/
+def mirrorSymmetric {α : Type} [Sub α] [Mul α] [Neg α] [OfNat α 0] (le : α → α → Bool) (rtol : α)
+    (w : List α) : Bool :=
+  (List.zipWith (closeTo le rtol) w w.reverse).all id
+
+inductive GridErr where
+  | cells      -- odd or < 2 cell count (validate_symmetric_axis_cells)
+  | widths     -- cell widths not mirror-symmetric about the centre
+  deriving DecidableEq, Repr
+
+/-- one axis of `reduce_symmetric`: the kept edges `edges[n // 2:]`, or the ValueError raised -/
+def reduceEdges {α : Type} [Sub α] [Mul α] [Neg α] [OfNat α 0] (le : α → α → Bool) (rtol : α)
+    (sym : Int) (e : List α) : Except GridErr (List α) :=
+  if sym = 0 then .ok e else
+  let n : Int := (e.length : Int) - 1
+  if badCells n then .error .cells
+  else if !mirrorSymmetric le rtol (widths e) then .error .widths
+  else .ok (e.drop ((e.length - 1) / 2))
+
+/-- rebuild the full widths from the kept ones: `concatenate([flip(widths), widths])` -/
+def mirrorWidths {α : Type} (w : List α) : List α := w.reverse ++ w
 
 /-! ### Driver -/
 open Proto
@@ -108,6 +147,7 @@ def pairs : List Int → List Sl
        → `error` | `vol | volUnreduced | shape | obj ; obj ; … | wall axes | wall slices`
          obj = `D` (dropped) or `clipped(6) / unclipped(6)`
   `wallnames a… | used names…`   (axes then `|` then the names in use)
+  `grid sym rtol e0 e1 …`         → `ok kept edges…` | `error cells` | `error widths` (one axis of reduce_symmetric)
 -/
 def handle : List String → String
   | "reduce" :: sx :: sy :: sz :: rest =>
@@ -125,6 +165,15 @@ def handle : List String → String
         let wa := wallAxes sym
         s!"{showSls r.vol} | {showSls r.volUn} | {showInts r.shape} | {" ; ".intercalate so} | {showNats wa} | {" ; ".intercalate (wa.map (fun a => showSls (wallSlice r.shape a)))}"
     | _, _ => "bad-op"
+  | "grid" :: sym :: rtol :: es =>
+    match parseInt sym, floatOfHex rtol, floatsOfHex es with
+    | some sym, some rtol, some es =>
+      if es.length < 2 then "bad-op" else
+      match reduceEdges (fun (a b : Float) => decide (a ≤ b)) rtol sym es with
+      | .ok r => s!"ok {showFloats r}"
+      | .error .cells => "error cells"
+      | .error .widths => "error widths"
+    | _, _, _ => "bad-op"
   | "wallnames" :: rest =>
     let axes := rest.takeWhile (· ≠ "|")
     let used := (rest.dropWhile (· ≠ "|")).drop 1
